@@ -102,6 +102,7 @@ def _worker_run(args) -> Tuple[int, dict, Optional[dict], float]:
     assert engine is not None
     t0 = time.time()
     rng = rng_for(seed, engine.name, idx)
+    rng._dst_index = idx  # engines that enumerate a finite space cycle through it by run index
     try:
         case = engine.generate(rng, tier, avoid)
         case.setdefault("engine", engine.name)
